@@ -438,6 +438,7 @@ OPNMIDI_EXPORT void opn2_setLoopHooksOnly(OPN2_MIDIPlayer *device, int loopHooks
         return;
     MidiPlayer *play = GET_MIDI_PLAYER(device);
     assert(play);
+    play->m_setup.loopHooksOnly = (loopHooksOnly != 0);
     play->m_sequencer->setLoopHooksOnly(loopHooksOnly);
 #else
     ADL_UNUSED(device);
